@@ -300,6 +300,49 @@ theorem prune_attrs {o : Opts} {api api' : Api} (hc : api.Consistent) (h : prune
       obtain ⟨r, ⟨hr, _⟩, rfl⟩ := hr'
       exact ⟨ns, hns, r, hr, rfl, rfl, rfl, rfl⟩
 
+/-- The property read over ALL attributes a route can carry (`route_schema.all_fields`, inherited
+fields of `stone_cfg.Route` included): the schema and every route show exactly the `-a` selection.
+PARTIAL: proved for a schema without inherited fields. `cli.main` only ever looks at
+`route_schema.fields`; with `struct Route extends other.Base` the three witnesses below show what
+goes wrong (each is reported by the harness as a failing input of the property). -/
+theorem prune_attrs_all_fields_partial {o : Opts} {api api' : Api} (hc : api.Consistent)
+    (hflat : api.schemaInherited = []) (h : prune o api = .ok api') :
+    (∀ n ∈ wantedAll o.attributes api, n ∈ api.allFields) ∧
+    api'.allFields = api.allFields.filter (fun n => n ∈ wantedAll o.attributes api) ∧
+    (∀ ns' ∈ api'.namespaces, ∀ r' ∈ ns'.routes, ∃ ns ∈ api.namespaces, ∃ r ∈ ns.routes,
+      ns.name = ns'.name ∧ r'.name = r.name ∧ r'.version = r.version ∧
+      r'.attrs = r.attrs.filter (fun kv => kv.1 ∈ wantedAll o.attributes api)) := by
+  have hw : wantedAll o.attributes api = wantedAttrs o.attributes api.schema := by
+    simp [wantedAll, wantedAttrs, Api.allFields, hflat]
+  obtain ⟨_, h2, h3, _, h5⟩ := prune_attrs hc h
+  obtain ⟨f, _, hspec⟩ := prune_eq_spec hc h
+  have hinh : api'.schemaInherited = [] := by rw [hspec]; simp [pruneSpec, hflat]
+  refine ⟨?_, ?_, ?_⟩
+  · rw [hw]; simpa [Api.allFields, hflat] using h2
+  · rw [hw]; simp [Api.allFields, hflat, hinh, h3]
+  · rw [hw]; exact h5
+
+/-- witness 1: an inherited attribute cannot be selected — `-a p` for an inherited `p` is refused -/
+theorem inherited_attribute_rejected :
+    ∃ (o : Opts) (api : Api) (err : CliError), (∀ n ∈ o.attributes, n ∈ api.allFields) ∧ prune o api = .error err :=
+  ⟨{ attributes := [['p']] }, ⟨[], [['n']], [['n']], [['p']]⟩, .attributeUndefined [['p']], by decide, rfl⟩
+
+/-- witness 2: `:all` hides the inherited attributes of every route -/
+theorem inherited_attribute_dropped_by_all :
+    ∃ (o : Opts) (api api' : Api), allAttributes ∈ o.attributes ∧ prune o api = .ok api' ∧
+      ∃ ns ∈ api.namespaces, ∃ r ∈ ns.routes, ∃ kv ∈ r.attrs, kv.1 ∈ api.allFields ∧
+        ∀ ns' ∈ api'.namespaces, ∀ r' ∈ ns'.routes, kv ∉ r'.attrs :=
+  ⟨{ attributes := [allAttributes] },
+    ⟨[⟨['a'], [⟨['r'], 1, [(['p'], .int 1), (['n'], .int 2)]⟩], [], [], []⟩], [['n']], [['n']], [['p']]⟩,
+    ⟨[⟨['a'], [⟨['r'], 1, [(['n'], .int 2)]⟩], [], [], []⟩], [['n']], [['n']], [['p']]⟩,
+    by decide, rfl, _, List.mem_singleton.mpr rfl, _, List.mem_singleton.mpr rfl, (['p'], .int 1), by decide, by decide,
+    by decide⟩
+
+/-- witness 3: without any `-a` the inherited fields are still there in the schema -/
+theorem inherited_field_stays_visible :
+    ∃ (o : Opts) (api api' : Api), o.attributes = [] ∧ prune o api = .ok api' ∧ api'.allFields ≠ [] :=
+  ⟨{}, ⟨[], [['n']], [['n']], [['p']]⟩, ⟨[], [], [], [['p']]⟩, rfl, rfl, by decide⟩
+
 /-- An attribute name unknown to the schema is an error — proved when `:all` is not among the `-a`
 values. PARTIAL: with `:all` present the other names are never looked at (see `all_masks_unknown`);
 the harness reports that case as a failing input of the property. -/
@@ -311,7 +354,7 @@ theorem prune_attrs_unknown_partial {o : Opts} {api : Api} (hall : allAttributes
 theorem all_masks_unknown :
     ∃ (o : Opts) (api api' : Api), allAttributes ∈ o.attributes ∧
       (∃ n ∈ o.attributes, n ≠ allAttributes ∧ n ∉ api.schema) ∧ prune o api = .ok api' :=
-  ⟨{ attributes := [allAttributes, ['b', 'o', 'g', 'u', 's']] }, ⟨[], [['n']], [['n']]⟩, ⟨[], [['n']], [['n']]⟩,
+  ⟨{ attributes := [allAttributes, ['b', 'o', 'g', 'u', 's']] }, ⟨[], [['n']], [['n']], []⟩, ⟨[], [['n']], [['n']], []⟩,
     by decide, ⟨['b', 'o', 'g', 'u', 's'], by decide, by decide, by decide⟩, rfl⟩
 
 /-- The by-name tables (`route_by_name`, `routes_by_name`) of every namespace the backend sees are
@@ -348,7 +391,7 @@ example :
     let r2 : Route := ⟨['s'], 1, [(['n'], .int 2), (['h'], .str ['y'])]⟩
     let nsA : Namespace := ⟨['a'], [r1, r2], (index [r1, r2]).1, (index [r1, r2]).2, [['T']]⟩
     let nsB : Namespace := ⟨['b'], [r1], (index [r1]).1, (index [r1]).2, [['U']]⟩
-    let api : Api := ⟨[nsA, nsB], [['n'], ['h']], [['n'], ['h']]⟩
+    let api : Api := ⟨[nsA, nsB], [['n'], ['h']], [['n'], ['h']], []⟩
     let o : Opts := { whitelist := [['a']], attributes := [['n']], filter := some ['n', ' ', '=', ' ', '1', ' '] }
     api.Consistent ∧
     (prune o api).map (fun a => a.namespaces.map fun ns => (ns.name, ns.routes, ns.dataTypes)) =
